@@ -200,7 +200,14 @@ pub fn any_word(rng: &mut Rng, lang: &str) -> String {
             format!("{}{}{}", head, run, tail)
         }
         18 => {
-            let digits: Vec<char> = "0123456789".chars().collect();
+            // digits: ASCII mostly; sometimes full-width, Arabic-Indic or Devanagari ones, superscripts and fractions
+            // (all of them count as alphanumeric)
+            let digits: Vec<char> = match rng.below(8) {
+                0 => "０１２３４５６７８９".chars().collect(),
+                1 => "٠١٢٣٤٥٦٧٨٩".chars().collect(),
+                2 => "०१२३²³½¼".chars().collect(),
+                _ => "0123456789".chars().collect(),
+            };
             let mut w = rand_word(rng, &digits, 1, 4);
             if rng.chance(1, 2) {
                 w.push_str(&rand_word(rng, &alpha, 1, 3));
